@@ -42,6 +42,13 @@ def printer_functions(F):
 from symex import linear_form as _linear
 
 
+def ppgraph_subterms(t):
+    if isinstance(t, tuple):
+        yield t
+        for x in t:
+            yield from ppgraph_subterms(x)
+
+
 def run(ck, F):
     ck.explanation = (
         'Termination: every public printer entry (xpr_expr, xpr_type, xpr_stmt, xpr_decl) is executed symbolically on '
@@ -285,6 +292,72 @@ def run(ck, F):
         ck.check(R6, f['id'], not hit, f'{f["id"]} is declared noexcept but reaches {len(hit)} function(s) that throw (e.g. '
                  f'{[contracts.short(contracts.fn_qname(h)) for h in hit[:3]]}): a refusal raised below it calls std::terminate instead of '
                  'reaching the caller as std::logic_error', loc=f['loc'], fn=f['id'])
+
+    # a declaration that is *used* (as the initializer of another one) is printed by its name: printing it in full follows the
+    # use back into a declaration, and two declarations that initialise each other (`int& a = b; int& b = a;`) never stop
+    R8 = ck.rule('C18.used-declaration-by-name', 'printing a declaration whose initializer is itself a declaration node does not print that '
+                 'second declaration in full (no nested request to the declaration / statement printer for it): the recursion of the printer '
+                 'follows owned sub-nodes only, so a cycle of uses in the graph cannot make it run for ever', floor=4)
+    ents8 = ppgraph.entries(F)
+    full_entries = {ents8[k]['id'] for k in ('xpr_decl', 'xpr_stmt') if k in ents8}
+    all_entries = {f_['id'] for f_ in ents8.values()}
+    base8 = ppgraph.printer_opaque(F)
+    S8 = Sym(F, opaque=lambda fid: fid in all_entries or base8(fid), max_depth=64)
+    used_cls = next((c for c in sorted(F.rec) if c.startswith('ipr::impl::decl_rep<') and c.endswith('Var>') and not F.rec[c]['abstract']), None)
+    if used_cls is None:
+        raise AnalysisBroken('no concrete variable declaration class found (decl_rep<Var>)')
+    n8 = 0
+    for cls, ifc, st, obj, prov in nodes:
+        if not F.derives_from(cls, 'ipr::Decl'):
+            continue
+        fo = F.final_overrider_by_name(cls, 'initializer')
+        s2 = ppgraph.completed(st, obj)
+        if not fo or s2 is None:
+            continue
+        try:
+            iv = S8.run(fo[0], this=obj, args=[], state=s2.fork())
+        except Unsupported:
+            continue
+        tgt = None
+        for s3, k3, v3 in iv:
+            if k3 == 'return':
+                pool = [v3]
+                if isinstance(v3, tuple) and v3[:1] == ('obj',) and v3[1] in s3.heap:
+                    pool += list(s3.heap[v3[1]].fields.values())        # an Optional handed back by value: what it holds
+                for t in (x for p_ in pool for x in ppgraph_subterms(p_)):
+                    if isinstance(t, tuple) and t[:1] == ('param',) and isinstance(t[1], int) and t[1] >= 900:
+                        tgt = t
+        if tgt is None:
+            continue
+        used = s2.new_obj(used_cls)
+        for o_ in s2.heap.values():
+            for fn_, fv_ in list(o_.fields.items()):
+                if fv_ == ('addr', tgt):
+                    o_.fields[fn_] = ('addr', used)
+        n8 += 1
+        nested = []
+
+        def record(target, recv, args, st2, nested=nested):
+            if target in full_entries:
+                nested.append((target, args, st2))
+            return []
+        S8.opaque_outcomes = record
+        status, res = ppgraph.run_entry(F, S8, ents8['xpr_decl'], s2, obj)
+        S8.opaque_outcomes = None
+        label = (contracts.short(ifc) if ifc else '?') + '[' + contracts.short(cls) + ppgraph.variant_tag(prov) + ']'
+        if status != 'ok':
+            ck.note(f'used-declaration-by-name: {label}: {status} ({str(res)[:80]})')
+            continue
+        bad = set()
+        for target, args, s4 in nested:
+            arg = args[1] if len(args) > 1 else None
+            node_ = s4.heap[arg[1]].fields.values() if isinstance(arg, tuple) and arg[:1] == ('obj',) and arg[1] in s4.heap else []
+            if any(x in (used, ('addr', used)) or (isinstance(x, tuple) and x[:1] == ('castto',) and used in ppgraph_subterms(x)) for x in node_):
+                bad.add(contracts.fn_simple(target) + '(' + contracts.short(F.fn[target]['params'][1]['t']) + ')')
+        ck.check(R8, label, not bad, f'printing a {contracts.short(ifc or cls)} whose initializer is a declaration asks for that declaration to be printed in full '
+                 f'({sorted(bad)}): with two declarations that initialise each other the printer never returns', loc=ents8['xpr_decl']['loc'], fn=ents8['xpr_decl']['id'])
+    if n8 == 0:
+        raise AnalysisBroken('no declaration class with a settable initializer link was found')
 
     # a refusal that is caught inside the printer: the pending indentation is adjusted by explicit, paired calls (not by scope
     # guards), so the exception leaves it wherever the nested printing had got to
